@@ -1196,6 +1196,20 @@ def issubdtype(a, b):
     return np.issubdtype(a, b)
 
 
+def norm(a, ord=None, axis=None, **kw):
+    """numpy.linalg.norm, 2-norm of a vector / Frobenius norm only"""
+    if not _use_shim(a):
+        return np.linalg.norm(a, ord=ord, axis=axis, **kw)
+    if ord not in (None, 2, "fro") or axis is not None:
+        raise SxUnsupported("norm(ord=%r, axis=%r)" % (ord, axis))
+    a = asarr(a)
+    tot = 0
+    for x in a.flat:
+        m = abs_(x)
+        tot = _add(tot, _mul(m, m))
+    return sqrt(tot)
+
+
 # identity-keyed table: numpy object -> shim
 TABLE = {}
 
@@ -1219,3 +1233,4 @@ for _n, _s in [
     ("negative", negative),
 ]:
     _reg(getattr(np, _n), _s)
+_reg(np.linalg.norm, norm)
